@@ -11,3 +11,4 @@ import SecsModel.Props.C19
 #print axioms SecsModel.Proofs.Sfdl.class_facts
 #print axioms SecsModel.Proofs.Sfdl.gen_def
 #print axioms SecsModel.Proofs.Sfdl.genFrom_toks
+#print axioms SecsModel.Proofs.Sfdl.gen_keys
